@@ -16,7 +16,10 @@ CHECKS: Dict[str, Callable[[str, Dict[str, Any]], Tuple[List[Any], Any]]] = {}
 def _attribute(check: Callable[..., Any], src: str, spec: Dict[str, Any], f: Any, known: Sequence[Dict[str, Any]]) -> Optional[str]:
     for k in known:
         m = k.get("match", {})
-        if "predicate" in m and PREDICATES[m["predicate"]](f.to_json(), src):
+        preds = m.get("predicate", [])
+        if isinstance(preds, str):
+            preds = [preds]
+        if any(PREDICATES[pn](f.to_json(), src) for pn in preds):
             return k["id"]
         if "normaliser" not in m:
             continue
